@@ -393,6 +393,8 @@ def unit_vote_fold(U):
         okid = p.value is seen and len(app) in (0, 1) and all(a is o for a in app)
         U.prove("C09.fold.order#p%d" % p.index, "one more key: it is appended to the order iff it was not in it yet; the list itself and its earlier entries stay", p.pc,
                 z3.And(z3.BoolVal(bool(okid)), z3.Not(was) == z3.BoolVal(len(app) == 1)), {"o": z3.String("o")}, replay=replay_order)
+    from pyvc.harness import require_loop_state
+    require_loop_state(H._choose_dialect, {0: (), 1: ("final_dialect",), 2: ("final_order",), 3: (), 4: ("final_order",)}, "the fold rule (C09.fold.*)")
 
 
 def unit_window(U):
